@@ -9,7 +9,8 @@ PROP_ID = "C02"
 LEVEL = "exploration"
 RULE = (
     "Same structure domains as C01 ((a) all matchings on <=N positions exhaustively, N=9 quick / 11 thorough; "
-    "(b) Hypothesis blow-ups with stems of 1-6 pairs so lengths, not only topology, decide the optimum; (c) "
+    "(b) Hypothesis blow-ups with stems of 1-6 pairs so lengths, not only topology, decide the optimum; (a') every chord diagram on k spaced chords with unit stems (k=5 quick; 5-7 thorough) and with fixed "
+    "unequal stem-length patterns (k=4,5 quick; 4-6 thorough); (c) "
     "path/star/cycle-shaped conflict graphs built on purpose), restricted to conflict components of <=10 stems. "
     "Oracle: independent exact optimiser (own stem finder, conflict graph, branch-and-bound over proper "
     "colourings) - compares SCORES, never strings; also properness, Grundy condition (no stem could move lower), "
@@ -150,6 +151,9 @@ def shaped(kind: str, k: int, lens):
     return ssref.seq_for(n, k), tuple(sorted(pairs))
 
 
+LENGTH_PATTERNS = [[1, 2, 3, 1, 2, 3, 1], [3, 1, 2, 2, 1, 3, 2], [2, 2, 1, 3, 3, 1, 1], [1, 3, 1, 3, 1, 3, 1], [4, 1, 1, 2, 4, 1, 2], [2, 1, 4, 1, 2, 3, 3]]
+
+
 def plan(tier, seed):
     specs = []
     if tier == "quick":
@@ -160,6 +164,14 @@ def plan(tier, seed):
         hyp = [(1200, 10)] * 16
     for k in range(K):
         specs.append({"kind": "exhaustive", "N": N, "slice": k, "of": K})
+    for k, shards in ([(5, 4)] if tier == "quick" else [(5, 2), (6, 14), (7, 48)]):
+        for sl in range(shards):
+            specs.append({"kind": "chords", "k": k, "slice": sl, "of": shards})
+    # the same diagrams with unequal stem lengths, so that lengths (not only topology) decide the optimum
+    for k, shards, pats in ([(4, 1, 3), (5, 6, 2)] if tier == "quick" else [(4, 1, 6), (5, 4, 6), (6, 16, 3)]):
+        for pat in range(pats):
+            for sl in range(shards):
+                specs.append({"kind": "chords", "k": k, "slice": sl, "of": shards, "lens": LENGTH_PATTERNS[pat][:k]})
     for idx, (n, m) in enumerate(hyp):
         specs.append({"kind": "blowup", "examples": n, "max_abstract": m, "seed": seed * 1000 + idx})
     specs.append({"kind": "shaped", "examples": 300 if tier == "quick" else 2000, "seed": seed * 1000 + 99})
@@ -183,6 +195,15 @@ def run_shard(spec) -> ShardResult:
                 idx += 1
         res.exhaustive = True
         res.extra["exhaustive_structures"] = res.evaluations
+    elif kind == "chords":
+        for idx, chords in enumerate(ssref.perfect_matchings(spec["k"])):
+            if idx % spec["of"] == spec["slice"]:
+                case = ssref.chord_structure(chords, True, spec.get("lens"))
+                nt, labs = classify(case)
+                res.note_case(tj(case), nt, labs + [f"chord-diagram-k={spec['k']}"], sample_cap=1)
+                check_case(PROP_ID, oracle, case, res, to_json=tj)
+        res.exhaustive = True
+        res.extra[f"chord_diagrams_k{spec['k']}"] = res.evaluations
     elif kind == "blowup":
         run_hypothesis(PROP_ID, ssref.st_structures(max_abstract=spec["max_abstract"], min_abstract=2), oracle,
                        seed=spec["seed"], max_examples=spec["examples"], result=res, to_json=tj, classify=classify)
